@@ -55,6 +55,13 @@ fn run_instance_via(seed: Option<u64>, err_rate: f64, lat_rate: f64, min: u64, m
             }
             b.error_fn(inject).build()
         }
+        5 => {
+            let mut b = ChaosLayer::builder().name("c19").error_rate(err_rate).error_fn(inject).latency_rate(lat_rate).min_latency(Duration::from_millis(min)).max_latency(Duration::from_millis(max));
+            if let Some(s) = seed {
+                b = b.seed(s);
+            }
+            b.on_passed_through(|| {}).on_error_injected(|| {}).on_latency_injected(|_| {}).build()
+        }
         3 => {
             // the error function first, its rate afterwards (error_fn is also available on the
             // initial builder; the builder it returns has an error_rate setter of its own)
@@ -157,7 +164,19 @@ fn main() {
                     let d = run_instance_via(Some(seed), er, lr, min, max, 0, true);
                     let e3 = run_instance(Some(seed), er, lr, min, max, 3);
                     let e4 = run_instance(Some(seed), er, lr, min, max, 4);
-                    rep.evaluations += 6 * N_REQ as u64;
+                    // (one more instance, with a listener for every event type)
+                    match run_instance(Some(seed), er, lr, min, max, 5) {
+                        Ok(l) => {
+                            if let Ok(a0) = &a {
+                                if &l != a0 {
+                                    let i = a0.iter().zip(l.iter()).position(|(x, y)| x != y).unwrap_or(0);
+                                    viol(&mut rep, "not_reproducible", cfg.clone(), format!("two instances with seed {seed}, one of them with event listeners, differ at request {i}: {:?} vs {:?}", a0.get(i), l.get(i)));
+                                }
+                            }
+                        }
+                        Err(e) => viol(&mut rep, "not_transparent", cfg.clone(), e),
+                    }
+                    rep.evaluations += 7 * N_REQ as u64;
                     let (a, b, c, d, e3, e4) = match (a, b, c, d, e3, e4) {
                         (Ok(a), Ok(b), Ok(c), Ok(d), Ok(e3), Ok(e4)) => (a, b, c, d, e3, e4),
                         (Err(e), _, _, _, _, _) | (_, Err(e), _, _, _, _) | (_, _, Err(e), _, _, _) | (_, _, _, Err(e), _, _) | (_, _, _, _, Err(e), _) | (_, _, _, _, _, Err(e)) => {
